@@ -4,6 +4,7 @@
 -/
 import MW.Lemmas.LedgerReorg3
 import MW.Lemmas.LedgerWorld
+import MW.Lemmas.LedgerDisc2
 namespace MW.Lemmas.Ledger
 open MW MW.Model.Ledger MW.Spec.Chain MW.Spec.Books
 
@@ -29,14 +30,13 @@ structure ChainOK (e : Env) (G : Block) (ch : List Block) : Prop where
   genesis : ch[0]? = some G
   known : ∀ x ∈ ch, AMap.get e.known x.id = some x
 
-/-- the static hypotheses: the block files and the rollback interface -/
+/-- the static hypotheses on the block files (the rollback interface `DisconnectSpec` of the reorg theorems is
+    no hypothesis: it is the theorem `disconnect_sound`) -/
 structure EnvHyp (e : Env) (G : Block) : Prop where
   /-- the only block of height 0 in the block files is the genesis block -/
   genesisOnly : ∀ id x, AMap.get e.known id = some x → x.height = 0 → x = G
   /-- the `prev` pointer of the genesis block (the zero hash) is no block's id -/
   genesisPrev : ∀ id x, AMap.get e.known id = some x → x.id ≠ G.prev
-  /-- what the rollback proofs provide, wherever the node stands -/
-  disc : ∀ ch, DisconnectSpec (e.ctx ch)
 
 /-- the node only switches to a branch that it then announces (a bare detach is not a node event) -/
 def EvOK : Ev → Prop
@@ -103,7 +103,7 @@ def J (e : Env) (G : Block) (w : World) : Prop :=
     (w.queue = [] → S = w.chain) ∧ (w.queue ≠ [] → w.queue.getLast? = w.chain.getLast?)
 
 /-- the hypotheses of the reorg theorems, for the node at `N` and the wallet at `S` -/
-theorem reorgHyp_of {e : Env} {G : Block} (E : EnvHyp e G) {N S : List Block} (hN : ChainOK e G N)
+theorem reorgHyp_of {e : Env} {G : Block} {N S : List Block} (hN : ChainOK e G N)
     (hS : ChainOK e G S) : ReorgHyp (e.ctx N) S where
   goodN := hN.good
   goodS := hS.good
@@ -115,7 +115,7 @@ theorem reorgHyp_of {e : Env} {G : Block} (E : EnvHyp e G) {N S : List Block} (h
   validN := hN.valid
   validS := hS.valid
   known := hS.known
-  disc := E.disc N
+  disc := disconnect_sound
 
 /-- the `hgen` hypothesis of `processBlock_reaches` / `processBlock_total` from the block files -/
 theorem hgen_of {e : Env} {G : Block} (E : EnvHyp e G) {S : List Block} (hS : ChainOK e G S) {b : Block}
@@ -147,7 +147,7 @@ theorem J_handle {e : Env} {G : Block} (E : EnvHyp e G) {w : World} {b : Block} 
     J e G (stepW e w .handle) ∧ ∀ ws, readyWallets (stepW e w .handle).s ws = readyWallets w.s ws := by
   rw [stepW_handle_cons hqueue]
   obtain ⟨S, hI, hv, hS, hAR, hne, hq, hq0, hq1⟩ := hJ
-  have H := reorgHyp_of E hN hS
+  have H := reorgHyp_of hN hS
   have hbk : AMap.get e.known b.id = some b := hq b (by rw [hqueue]; exact List.mem_cons_self)
   have hgen := hgen_of E hS hbk
   have hqk : ∀ x ∈ q, AMap.get e.known x.id = some x :=
